@@ -38,7 +38,9 @@ CHECKS = {
               'other levels); after every cycle every rack / pod / cell must '
               'cover labels, traits and free capacity of every up server '
               'below it, also on the real master (server record changes, '
-              'presence, cell events).', '5/C02'),
+              'presence, cell events), where a newly submitted instance is '
+              'also judged from ZooKeeper records alone (no empty fitting '
+              'server while it stays pending).', '5/C02'),
     'C03': _s('BFS over histories incl. partition re-assignment, trait/label '
               'changes, freeze/down, leases under a virtual clock; every new '
               'placement is checked against the eligibility predicate and '
@@ -51,7 +53,9 @@ CHECKS = {
               'compared with limits and with the kept counters; also servers '
               'moving (with their instances) below another rack, and a '
               'one-rack configuration in which a holder of a used-up limit '
-              'is evicted in vain.', '5/C04'),
+              'is evicted in vain; two evictions on one server in one cycle; '
+              'on the real master bucket records with an explicit level, '
+              'levels judged from ZooKeeper.', '5/C04'),
     'C05': _s('BFS over histories of arrivals, evictions, failures, '
               'blacklisting and group count changes with up to 2 skipped '
               'cycles (incl. a group shrinking while holders sit on frozen '
